@@ -407,6 +407,19 @@ def run(repo: Repo, tier: str) -> Report:
                 fin_nodata = (n, atoms)
             elif isinstance(st.value, ast.BinOp) and isinstance(st.value.op, ast.Div):
                 fin_mean = (n, atoms)
+    if fin_mean is None:
+        # `avg /= n` is the same finalisation as `avg = avg / n`
+        for n in dm.cfg.stmt_nodes():
+            st = n.stmt
+            if n.kind == "stmt" and isinstance(st, ast.AugAssign) and isinstance(st.target, ast.Name) and st.target.id == accv and isinstance(st.op, ast.Div) \
+                    and mloops.get(id(st)) == [gl.stmt]:
+                eq = ast.copy_location(ast.Assign(targets=[ast.Name(id=accv, ctx=ast.Store())],
+                                                  value=ast.BinOp(left=ast.Name(id=accv, ctx=ast.Load()), op=ast.Div(), right=st.value)), st)
+                ast.fix_missing_locations(eq)
+
+                class _N:        # same interface as the CFG node for the two uses below
+                    stmt = eq
+                fin_mean = (_N, guard_atoms(dm, n, resolved=False))
     ob("R-FORMULA", "a group without valid cells yields nodata", fin_nodata is not None and fin_nodata[1] == [f"eq0[{counter}]"],
        f"found {norm_stmt(fin_nodata[0].stmt) if fin_nodata else None} under {fin_nodata[1] if fin_nodata else None}",
        fin_nodata[0].stmt if fin_nodata else "avg = nodata", fn="mean_grp")
